@@ -9,14 +9,19 @@
    are specified there, not copied from the quadrature.  The bound 14 is the 19-node table of
    the sweep nc_sweep (the code uses a+b+5 nodes).
    Curved boundaries (Lemmas/QuadCurved.v): the coordinates of a Bezier segment are the
-   polynomials seg_px_poly / seg_py_poly in t (every degree), and the model's rule on 3+ex+ey+d
-   nodes integrates X^ex Y^ey Y' EXACTLY whenever (d-1)(ex+ey) <= 3 (C04_curved_segment): the
-   area for every degree <= 5 (C04_curved_area; the statement's "area is exact" for degrees
-   1..3), the moments of order 1 and 2 for quadratic boundaries, every moment for straight ones;
-   the curved specification coincides with the polygon one on polygons.  Outside that range the
-   rule is NOT exact: machine-checked witnesses for a cubic (first and second moments) and for
-   the area of a sextic -- there the statement only promises "quadrature accuracy", which stays
-   with the oracle (partial). *)
+   polynomials seg_px_poly / seg_py_poly in t (every degree).  Since the repair of F29 the
+   model's rule uses vertical_nodes d ex ey = max(3+ex+ey+d, d*(ex+ey+1)) nodes on a segment of
+   degree d, at least as many as X^ex Y^ey Y' has coefficients, and integrates it EXACTLY for
+   EVERY exponent pair within the 19-node table (C04_curved_segment): the area for every degree
+   <= 9 (C04_curved_area), the moments of order <= 2 -- indeed <= 4 -- for cubic boundaries
+   (C04_cubic_moments), of order <= 7 for quadratic ones, every moment a+b <= 14 for straight
+   ones; the curved specification coincides with the polygon one on polygons.  Before the
+   repair the rule had 3+ex+ey+d nodes and was exact only for (d-1)(ex+ey) <= 3; the
+   machine-checked witnesses of its failure just outside that range (first moment of a cubic,
+   area of a sextic) are kept as regression examples about the old node count, paired with the
+   exactness of the repaired rule on the same segments (C04_old_rule_refuted).  Beyond the
+   19-node table (e.g. cubic moments of order >= 5) nothing is claimed here: that stays with
+   the oracle (partial). *)
 From SV Require Import Spec.Spec Lemmas.Quadrature Lemmas.QuadCurved.
 Open Scope Q_scope.
 
@@ -54,48 +59,91 @@ Theorem C04_segment_polynomials : forall s t,
 Proof. intros s t; split; [apply eval_px_poly | apply eval_py_poly]. Qed.
 Print Assumptions C04_segment_polynomials.
 
-(* one segment of degree d: the rule on 3+ex+ey+d nodes is exact when (d-1)(ex+ey) <= 3 *)
+(* one segment of degree d: the rule on max(3+ex+ey+d, d(ex+ey+1)) nodes is exact for every
+   exponent pair, as long as the node count is in the 19-node table *)
 Theorem C04_curved_segment : forall s ex ey,
+  (1 <= degree s)%nat -> (vertical_nodes (degree s) ex ey <= 19)%nat ->
+  vertical s ex ey == pint01 (curved_integrand s ex ey).
+Proof. exact vertical_curved_exact. Qed.
+Print Assumptions C04_curved_segment.
+
+(* the range that was exact before the repair is an instance *)
+Theorem C04_curved_segment_old_range : forall s ex ey,
   (1 <= degree s)%nat -> ((degree s - 1) * (ex + ey) <= 3)%nat -> (3 + ex + ey + degree s <= 19)%nat ->
   vertical s ex ey == pint01 (curved_integrand s ex ey).
 Proof. exact vertical_curved_exact'. Qed.
-Print Assumptions C04_curved_segment.
+Print Assumptions C04_curved_segment_old_range.
 
-(* the area of a closed curve with segments of degree <= 5 is exact *)
-Theorem C04_curved_area : forall j, (forall s, In s j -> (1 <= degree s <= 5)%nat) ->
+(* the area of a closed curve with segments of degree <= 9 is exact: max(4+d, 2d) <= 18 nodes *)
+Theorem C04_curved_area : forall j, (forall s, In s j -> (1 <= degree s <= 9)%nat) ->
   jordan_area j == Qsum (map (fun s => pint01 (curved_integrand s 1 0)) j).
-Proof. exact area_curved_exact5. Qed.
+Proof. exact area_curved_exact9. Qed.
 Print Assumptions C04_curved_area.
 
-(* moments of shapes of every kind, per segment (d-1)(a+1+b) <= 3: order <= 2 for quadratics *)
+(* moments of shapes of every kind; per segment the node count must be in the table *)
 Theorem C04_curved_moments : forall Sh a b,
   (forall j s, In j (jordans Sh) -> In s j ->
-     (1 <= degree s)%nat /\ ((degree s - 1) * (S a + b) <= 3)%nat) ->
-  (a + b <= 11)%nat -> moment Sh a b == moment_spec_curved Sh a b.
+     (1 <= degree s)%nat /\ (vertical_nodes (degree s) (S a) b <= 19)%nat) ->
+  moment Sh a b == moment_spec_curved Sh a b.
 Proof. exact moment_curved_spec. Qed.
 Print Assumptions C04_curved_moments.
+
+(* cubic boundaries (degree <= 3): area, centroid and inertia moments, at most 12 nodes *)
+Theorem C04_cubic_moments : forall Sh a b,
+  (forall j s, In j (jordans Sh) -> In s j -> (1 <= degree s <= 3)%nat) ->
+  (a + b <= 2)%nat -> moment Sh a b == moment_spec_curved Sh a b.
+Proof. exact moment_cubic_exact. Qed.
+Print Assumptions C04_cubic_moments.
+(* ... and what the table allows: order <= 4 for cubics, <= 7 for quadratics *)
+Theorem C04_cubic_moments4 : forall Sh a b,
+  (forall j s, In j (jordans Sh) -> In s j -> (1 <= degree s <= 3)%nat) ->
+  (a + b <= 4)%nat -> moment Sh a b == moment_spec_curved Sh a b.
+Proof. exact moment_cubic_exact4. Qed.
+Print Assumptions C04_cubic_moments4.
+Theorem C04_quadratic_moments : forall Sh a b,
+  (forall j s, In j (jordans Sh) -> In s j -> (1 <= degree s <= 2)%nat) ->
+  (a + b <= 7)%nat -> moment Sh a b == moment_spec_curved Sh a b.
+Proof. exact moment_quadratic_exact. Qed.
+Print Assumptions C04_quadratic_moments.
 
 Theorem C04_curved_spec_on_polygons : forall Sh a b, shape_lines Sh = true ->
   moment_spec_curved Sh a b == moment_spec Sh a b.
 Proof. exact moment_spec_curved_lines. Qed.
+Print Assumptions C04_curved_spec_on_polygons.
 
-(* the bound is sharp: beyond it the rule is a quadrature, not an identity *)
-Example C04_cubic_first_moment_inexact :
-  exists s, degree s = 3%nat /\ ~ vertical s 2 0 == pint01 (curved_integrand s 2 0).
-Proof. destruct cubic_first_moment_inexact as (s & H1 & _ & H3). exists s. split; assumption. Qed.
-Example C04_sextic_area_inexact :
-  exists s, degree s = 6%nat /\ ~ vertical s 1 0 == pint01 (curved_integrand s 1 0).
-Proof. exact sextic_area_inexact. Qed.
+(* regression: the node count before the repair (3+ex+ey+d, vertical_old) is inexact on the
+   first moment of a cubic (8 nodes for 9 coefficients); the repaired count (9 nodes) is exact
+   on the same segment *)
+Example C04_old_rule_refuted :
+  exists s, degree s = 3%nat /\
+    ~ vertical_old s 2 0 == pint01 (curved_integrand s 2 0) /\
+    vertical s 2 0 == pint01 (curved_integrand s 2 0).
+Proof. exact old_rule_cubic_first_moment_inexact. Qed.
+Print Assumptions C04_old_rule_refuted.
+(* the same for the area of a sextic (10 nodes for 12 coefficients; now 12) *)
+Example C04_old_rule_refuted_sextic_area :
+  exists s, degree s = 6%nat /\
+    ~ vertical_old s 1 0 == pint01 (curved_integrand s 1 0) /\
+    vertical s 1 0 == pint01 (curved_integrand s 1 0).
+Proof. exact old_rule_sextic_area_inexact. Qed.
+Print Assumptions C04_old_rule_refuted_sextic_area.
 
-(* the cap under y = 1 - x^2: area 4/3, int x^2 = 4/15, inside the hypotheses *)
+(* the cap under y = 1 - x^2: area 4/3, int x^2 = 4/15, inside the hypotheses of
+   C04_curved_area, C04_curved_moments and C04_cubic_moments *)
 Example C04_curved_nonvacuous :
-  (forall s, In s cap -> (1 <= degree s <= 4)%nat) /\
+  (forall s, In s cap -> (1 <= degree s <= 9)%nat) /\
+  (forall j s, In j (jordans cap_shape) -> In s j ->
+     (1 <= degree s)%nat /\ (vertical_nodes (degree s) (S 2) 0 <= 19)%nat) /\
+  (forall j s, In j (jordans cap_shape) -> In s j -> (1 <= degree s <= 3)%nat) /\
   jordan_area cap = 4 # 3 /\
   moment cap_shape 2 0 = 4 # 15 /\
   Qred (moment_spec_curved cap_shape 2 0) = 4 # 15.
 Proof.
-  split; [exact (proj1 cap_hyps)|]. split; [exact (proj1 cap_area)|exact cap_moment_20].
+  split; [exact (proj1 cap_hyps)|]. split; [exact (proj1 (proj2 cap_hyps))|].
+  split; [exact (proj2 (proj2 cap_hyps))|].
+  split; [exact (proj1 cap_area)|exact cap_moment_20].
 Qed.
+Print Assumptions C04_curved_nonvacuous.
 
 Example C04_nonvacuous :
   shape_lines Lshape = true /\ moment Lshape 2 1 = 149 # 48 /\ Qred (moment_spec Lshape 2 1) = 149 # 48.
